@@ -620,7 +620,7 @@ def run_impl(case):
             # one query buffer reused IN PLACE for successive query sets of the same length (strided view, too)
             buf = np.repeat(_np(case["Q"]), 2)[::2]
             first = np.asarray(ps.predict(buf)).tolist()
-            pv = [v[1] for v in case["variants"] if v[0] in ("perm", "reversed") and len(v[1]) == len(case["Q"])][0]
+            pv = ([v[1] for v in case["variants"] if v[0] in ("perm", "reversed") and len(v[1]) == len(case["Q"])] + [case["Q"][::-1]])[0]
             buf[:] = _np(pv)
             out["inplace"] = dict(first=first, pts=pv, second=np.asarray(ps.predict(buf)).tolist())
             # results KEPT across calls on one object (same number of query points): they must stay what they were and
@@ -668,7 +668,7 @@ def run_impl(case):
             # one query buffer reused IN PLACE for successive query sets of the same length
             buf = _np(case["Q"]).copy()
             first = lp.predict(y=y, x=x, x_new=buf).tolist()
-            pv = [v[1] for v in case["variants"] if v[0] in ("perm", "reversed") and len(v[1]) == len(case["Q"])][0]
+            pv = ([v[1] for v in case["variants"] if v[0] in ("perm", "reversed") and len(v[1]) == len(case["Q"])] + [case["Q"][::-1]])[0]
             buf[:] = _np(pv)
             out["inplace"] = dict(first=first, pts=pv, second=lp.predict(y=y, x=x, x_new=buf).tolist())
         else:
